@@ -53,6 +53,8 @@ def specParams (x : Params.Ext) (d pi : J) (op : Option J) : List (String × J) 
     let allResolve := ps.all fun p => (tgt p).isSome
     let keys := ((ps.filterMap tgt).map (Spec.Params.keyOf x.goName)).eraseDups
     [("allResolve", .bool allResolve),
+     -- the `$ref`s that designate no shared parameter, path-level list first, in document order
+     ("badRefs", .arr ((ps.filter fun p => (tgt p).isNone).map fun p => .str (Doc.refStr p))),
      ("effective", .obj (keys.filterMap fun k =>
         (Spec.Params.effective x.goName x.refTokens d pi o k).map fun p => (k, tagOf p)))]
 
